@@ -137,6 +137,34 @@ class Ref:
             return kind(r)
         raise Unsupported('number')
 
+    # documented contextmerge / default semantics (C10 statement) for plain trees
+    def merge(self, cur, add):
+        for k, v in add.items():
+            k = self.fmt(k)
+            if isinstance(k, (list, dict)):
+                raise Unsupported('unhashable key')
+            if isinstance(v, str) or hasattr(v, 'get_value'):
+                cur[k] = self.fmt(v)
+            elif k in cur and isinstance(cur[k], dict) and isinstance(v, dict):
+                self.merge(cur[k], v)
+            elif k in cur and isinstance(cur[k], list) and isinstance(v, list):
+                cur[k] = cur[k] + list(self.fmt(v))
+            elif k in cur and isinstance(cur[k], tuple) and isinstance(v, tuple):
+                cur[k] = cur[k] + tuple(self.fmt(v))
+            else:
+                cur[k] = self.fmt(v)
+
+    def defaults(self, cur, dflt):
+        for k, v in dflt.items():
+            k = self.fmt(k)
+            if isinstance(k, (list, dict)):
+                raise Unsupported('unhashable key')
+            if k in cur:
+                if isinstance(cur[k], dict) and isinstance(v, dict):
+                    self.defaults(cur[k], v)
+            else:
+                cur[k] = self.fmt(v)
+
     def tick(self):
         self.budget -= 1
         if self.budget < 0:
@@ -366,6 +394,13 @@ class Ref:
                 c.pop(k, None)
         elif b == 'clearall':
             c.clear()
+        elif b in ('merge', 'default'):
+            key = 'contextMerge' if b == 'merge' else 'defaults'
+            if not isinstance(c.get(key), dict):
+                raise Unsupported('merge payload')
+            if key in c[key]:
+                raise Unsupported('payload names itself')
+            (self.merge if b == 'merge' else self.defaults)(c, c[key])
         elif b == 'pype':
             self.pype(c)
         else:
